@@ -205,6 +205,23 @@ class Axis(ast.NodeVisitor):
         # for x in xs / for y in ys keep their declared axis; (x, y) in pairs
         self.generic_visit(n)
 
+    def visit_Subscript(self, n):
+        # a row-major list index `col + row * W` (W: number of columns) joins the two axes on purpose -- the inverse of the
+        # `i % W`, `i // W` decomposition; its parts are still visited, the linear form itself is not reported
+        sl = n.slice
+        if isinstance(sl, ast.BinOp) and isinstance(sl.op, ast.Add):
+            sides = [sl.left, sl.right]
+            prod = [e for e in sides if isinstance(e, ast.BinOp) and isinstance(e.op, ast.Mult)]
+            other = [e for e in sides if e not in prod]
+            if len(prod) == 1 and len(other) == 1 and self.tag(other[0]) in ('X', None):
+                pl, pr = self.tag(prod[0].left), self.tag(prod[0].right)
+                if {pl, pr} <= {'X', 'Y', None} and 'X' in (pl, pr) and (pl, pr) != ('X', 'X'):
+                    self.visit(n.value)
+                    for e in (other[0], prod[0].left, prod[0].right):
+                        self.visit(e)
+                    return
+        self.generic_visit(n)
+
     def visit_BinOp(self, n):
         self.generic_visit(n)
         l, r = self.tag(n.left), self.tag(n.right)
